@@ -54,7 +54,20 @@ var exprTexts = []string{"k || 'x'", "K || 'x'", "k || 'X'", "upper(k)", "UPPER(
 func resolveDirectCases(g *hc.Gen, o *hc.Out, n int) {
 	views := []string{"a", "A", "b", "t1", "", "a"}
 	names := []string{"id", "ID", "k", "K", " k", "k ", "v", "w", "Id"}
+	// names that differ by case in non-ASCII letters, incl. the fold orbits where strings.EqualFold (these look-ups)
+	// and strings.ToUpper (value equality) part ways: Kelvin sign / k / K, long s / s / S, sharp s / capital sharp s,
+	// dotless i / i / I / dotted capital I, A with ring / Angstrom sign, the digraphs, Omega / ohm sign, sigma's three forms
+	asciiViews, asciiNames := views, names
+	uniViews := []string{"\u00c9t\u00e9", "\u00e9T\u00c9", "\u212a", "k", "\u017f", "S", "a", ""}
+	uniNames := []string{"\u212a", "k", "K", "\u017f", "S", "s", "\u00df", "\u1e9e", "\u0131", "i", "I", "\u0130", "\u00c5", "\u00e5", "\u212b",
+		"\u00e9", "\u00c9", "\u01c6", "\u01c5", "\u01c4", "\u03a9", "\u03c9", "\u2126", "\u044f", "\u042f", "\u03c3", "\u03c2", "\u03a3",
+		" \u00df", "\u0131 ", "stra\u00dfe", "STRA\u1e9eE", "\u10d0", "\u1c90", "\U00010428", "\U00010400"}
 	for c := 0; c < n; c++ {
+		views, names = asciiViews, asciiNames
+		if c%3 == 2 {
+			views, names = uniViews, uniNames
+			o.Count("resolve:non-ascii-names")
+		}
 		nf := 1 + g.Intn(6)
 		h := make(query.Header, nf)
 		desc := []string{strconv.Itoa(nf)}
